@@ -66,6 +66,9 @@ type Ctx struct {
 	usedGhost   bool
 	tainted     map[string]bool
 	guardType   string
+	shadow      bool // contracts in use mode also run the real function and record (havoc variable, real value) pairs
+	fresh2      int
+	shadowPairs [][2]*Term
 	secretMemo  map[*Term]bool
 	nInstr      int64
 }
@@ -80,6 +83,7 @@ type contractFrame struct {
 	rets    Value
 	called  bool
 	taint   bool
+	inReal  bool
 }
 
 type Path struct {
@@ -335,6 +339,14 @@ type frame struct {
 }
 
 func (c *Ctx) freshName(prefix string) string {
+	if c.shadow {
+		for _, cf := range c.curContract {
+			if cf.inReal {
+				c.fresh2++
+				return fmt.Sprintf("sh%s!%d", prefix, c.fresh2)
+			}
+		}
+	}
 	c.fresh++
 	return fmt.Sprintf("%s!%d", prefix, c.fresh)
 }
@@ -382,6 +394,13 @@ func (c *Ctx) callFunction(fn *ssa.Function, args []Value, bind []Value, st *Sta
 		switch fn.Name() {
 		case "Real":
 			cf := c.topContract()
+			if c.shadow && cf != nil && !cf.prove {
+				// shadow run: the real function runs inside the used contract; names created meanwhile come
+				// from a separate counter so that the contract's own fresh names stay aligned with the
+				// original (abstract) run
+				cf.inReal = true
+				return []Outcome{{st, TrueT}}
+			}
 			return []Outcome{{st, BoolC(cf != nil && cf.prove)}}
 		case "FreshInt", "FreshU64", "FreshI64":
 			return []Outcome{{st, Var(c.freshName("fresh"), BV(64))}}
